@@ -38,6 +38,50 @@ use std::collections::{HashMap, HashSet};
 verus! {
 broadcast use {vstd::std_specs::hash::group_hash_axioms, crate::vx_hash_ax::group_key_models};
 
+/// the borrowed form k denotes the key `key` (phrased with vstd's own predicate on a singleton map)
+pub open spec fn key_denoted_by<K, Q: ?Sized>(key: K, k: &Q) -> bool {
+    vstd::std_specs::hash::contains_borrowed_key(Map::<K, ()>::empty().insert(key, ()), k)
+}
+
+/// String keys looked up through &str: the key with the same characters (trusted: Borrow<str> for String, and
+/// Hash/Eq of String and str agree - the contract std documents for Borrow)
+#[verifier::external_body]
+pub broadcast proof fn axiom_contains_str_key<V>(m: Map<String, V>, k: &str)
+    ensures #[trigger] vstd::std_specs::hash::contains_borrowed_key::<String, V, str>(m, k)
+        <==> exists|key: String| #![trigger m.contains_key(key)] m.contains_key(key) && key@ == k@
+{}
+
+#[verifier::external_body]
+pub broadcast proof fn axiom_maps_str_key_to_value<V>(m: Map<String, V>, k: &str, v: V)
+    ensures #[trigger] vstd::std_specs::hash::maps_borrowed_key_to_value::<String, V, str>(m, k, v)
+        <==> exists|key: String| #![trigger m.contains_key(key)] m.contains_key(key) && key@ == k@ && m[key] == v
+{}
+
+/// a String is determined by its characters (trusted; the String counterpart of axiom_str_ext)
+#[verifier::external_body]
+pub broadcast proof fn axiom_string_ext(a: String, b: String)
+    ensures (#[trigger] a@ == #[trigger] b@) <==> (a == b)
+{}
+
+pub broadcast group group_string_keys { axiom_contains_str_key, axiom_maps_str_key_to_value }
+
+pub assume_specification<'a, K, V, S, A, Q>[ HashMap::<K, V, S, A>::get_mut::<Q> ](m: &'a mut HashMap<K, V, S, A>, k: &Q) -> (r: Option<&'a mut V>)
+    where
+        A: std::alloc::Allocator,
+        K: std::cmp::Eq + std::hash::Hash + std::borrow::Borrow<Q>,
+        Q: std::marker::MetaSized + std::hash::Hash + std::cmp::Eq + ?Sized,
+        S: std::hash::BuildHasher,
+    ensures
+        vstd::std_specs::hash::obeys_key_model::<K>() && vstd::std_specs::hash::builds_valid_hashers::<S>() ==> match r {
+            Some(v) => vstd::std_specs::hash::contains_borrowed_key(old(m)@, k)
+                && vstd::std_specs::hash::maps_borrowed_key_to_value(old(m)@, k, *v)
+                && final(m)@.dom() == old(m)@.dom()
+                // exactly the entry that k denotes is replaced by the final value written through the reference
+                && (forall|key: K| #[trigger] old(m)@.contains_key(key) ==> final(m)@[key] ==
+                        (if key_denoted_by(key, k) { *final(v) } else { old(m)@[key] })),
+            None => !vstd::std_specs::hash::contains_borrowed_key(old(m)@, k) && final(m)@ == old(m)@,
+        };
+
 /// r lists exactly the entries of m, each once, in an UNSPECIFIED order
 pub open spec fn is_map_listing<K, V>(m: Map<K, V>, r: Seq<(K, V)>) -> bool {
     &&& forall|i: int, j: int| 0 <= i < j < r.len() ==> (#[trigger] r[i]).0 != (#[trigger] r[j]).0
